@@ -32,6 +32,26 @@ struct Priv {                       // thread-private objects that persist over 
     std::ostringstream os8; std::wostringstream osw;      // the thread's own long-lived streams; their formatting state was copied from the prototypes
 };
 
+// a sink that is unwell once: its k-th transfer (xsputn / overflow / sync) reports failure, everything before and after it works.  Never allocates
+// inside a transfer that fails (a std::basic_stringbuf underneath does the storing).
+template <class Ch> struct FlakyBuf : std::basic_stringbuf<Ch> {
+    typedef std::basic_stringbuf<Ch> B; typedef typename B::int_type int_type; typedef typename B::traits_type traits;
+    int calls = 0, fail_at = 1;
+    std::streamsize xsputn(const Ch *s, std::streamsize n) override { if (++calls == fail_at) return 0; return B::xsputn(s, n); }
+    int_type overflow(int_type c) override { if (++calls == fail_at) return traits::eof(); return B::overflow(c); }
+    int sync() override { if (++calls == fail_at) return -1; return B::sync(); }
+};
+// one writef to such a sink, in either exception mode of the stream; what arrived, the state bits and the exception type go into the digest
+template <class Ch, class... A> static inline void flaky_writef(simrt::Hash &h, int fail_at, bool throwing, const char *fmt, const A &...a) {
+    FlakyBuf<Ch> fb; fb.fail_at = fail_at; std::basic_ostream<Ch> os(&fb);
+    if (throwing) os.exceptions(std::ios_base::badbit);
+    try { ST::writef(os, fmt, a...); os.flush(); h.u8(0); }
+    catch (const std::ios_base::failure &) { h.u8(1); }
+    catch (const std::exception &) { h.u8(2); }
+    os.exceptions(std::ios_base::goodbit);
+    h.u8((uint8_t)os.rdstate()); std::basic_string<Ch> got = fb.str(); h.u64(got.size()); h.bytes(got.data(), got.size() * sizeof(Ch));
+}
+
 static inline void hs(simrt::Hash &h, const ST::string &s) { h.u64(s.size()); h.bytes(s.c_str(), s.size()); }
 template <class T> static inline void hb(simrt::Hash &h, const ST::buffer<T> &b) { h.u64(b.size()); h.bytes(b.data(), b.size() * sizeof(T)); }
 template <class C> static inline void hstd(simrt::Hash &h, const std::basic_string<C> &b) { h.u64(b.size()); h.bytes(b.data(), b.size() * sizeof(C)); }
